@@ -2,7 +2,8 @@ import MgpuProofs.C10BuddyTrip3
 /-!
 # C10 (extension) — the buddy allocator `deviceBuddyMemoryState`: round trips, no crash on free, conservation
 
-Model: `MgpuModel/C10Buddy.lean` (the repaired `allocateMultiplePages`). A device of `4096 * 2^F` bytes at any address
+Model: `MgpuModel/C10Buddy.lean` (the repaired `allocateMultiplePages`: merge bit toggled whenever a block leaves a
+free list; a request for no page returns at once — `runLiveNoGuard` is the code before that second repair). A device of `4096 * 2^F` bytes at any address
 `base`; histories of `Device.allocatePage` bursts (`pop k`), `Device.allocateMultiplePages(n)` (`am n`) and frees
 (`add ps` = `addSinglePAddr` of each page), run by `runLive` (which also keeps the list of live pages and stops at the
 first fault or at the first `add` of a page that is not live).
@@ -17,20 +18,19 @@ namespace C10.Buddy
 /-! ## 1. fragmentation freedom -/
 
 /-- **Round trip / no fragmentation.** On a device of `4096 * 2^F` bytes at `base` (any `F`, any `base`), after ANY
-history of single-page bursts, multi-page requests for at least one page (`AmPos`) and frees of live pages, if every
+history of single-page bursts, multi-page requests (for ANY number of pages, zero included) and frees of live pages, if every
 page handed out has been given back (`live = []`) then the allocator is back in its fresh state: ONE free block —
 the whole device — at level 0 and nothing else on any free list, no split bit and no merge bit left set, and an
 empty `blockTracking` map. However the pages were interleaved, buddies always re-merge completely.
 (The hypothesis `legal` is not used by the proof: `runLive` stops before an illegal `add`.) -/
 theorem buddy_round_trip (F base : Nat) (ops : List Op)
     (_hlegal : (runLive (init base (4096 * 2 ^ F)) [] ops).legal = true)
-    (hpos : ∀ op ∈ ops, AmPos op)
     (hlive : (runLive (init base (4096 * 2 ^ F)) [] ops).live = []) :
     (runLive (init base (4096 * 2 ^ F)) [] ops).st.free = [base] :: List.replicate F [] ∧
     (runLive (init base (4096 * 2 ^ F)) [] ops).st.split = [] ∧
     (runLive (init base (4096 * 2 ^ F)) [] ops).st.merge = [] ∧
     (runLive (init base (4096 * 2 ^ F)) [] ops).st.track = [] := by
-  obtain ⟨c, T, -⟩ := core_runLive ops _ [] hpos (core_init F base) (by simp [Tracked, init]) List.nodup_nil
+  obtain ⟨c, T, -⟩ := core_runLive ops _ [] (core_init F base) (by simp [Tracked, init]) List.nodup_nil
   apply core_collapse c
   intro p hp
   have := (T p).mp hp
@@ -39,10 +39,10 @@ theorem buddy_round_trip (F base : Nat) (ops : List Op)
 
 /-- after a round trip every retired tracker counts zero pages (`numOfPages` reached 0 exactly when its last page
 was returned: the count of a tracker always EQUALS the number of pages mapped to it) -/
-theorem buddy_round_trip_trackers (F base : Nat) (ops : List Op) (hpos : ∀ op ∈ ops, AmPos op)
+theorem buddy_round_trip_trackers (F base : Nat) (ops : List Op)
     (hlive : (runLive (init base (4096 * 2 ^ F)) [] ops).live = []) (id ia num : Nat)
     (e : (runLive (init base (4096 * 2 ^ F)) [] ops).st.trk[id]? = some (ia, num)) : num = 0 := by
-  obtain ⟨c, T, -⟩ := core_runLive ops _ [] hpos (core_init F base) (by simp [Tracked, init]) List.nodup_nil
+  obtain ⟨c, T, -⟩ := core_runLive ops _ [] (core_init F base) (by simp [Tracked, init]) List.nodup_nil
   have ht : (runLive (init base (4096 * 2 ^ F)) [] ops).st.track = [] := by
     refine (core_collapse c ?_).2.2.2
     intro p hp
@@ -70,35 +70,59 @@ example :
   simp only [List.mem_cons, List.not_mem_nil, or_false] at hop
   rcases hop with rfl | rfl | rfl | rfl | rfl | rfl | rfl <;> simp [AmPos]
 
-/-- The same statement WITHOUT the restriction to requests of at least one page. It is FALSE. -/
+/-- The round trip for EVERY history — no restriction to requests of at least one page. -/
 def buddy_round_trip_full : Prop :=
   ∀ (F base : Nat) (ops : List Op),
     (runLive (init base (4096 * 2 ^ F)) [] ops).legal = true →
     (runLive (init base (4096 * 2 ^ F)) [] ops).live = [] →
     (runLive (init base (4096 * 2 ^ F)) [] ops).st.free = [base] :: List.replicate F []
 
-/-- Witness: `allocateMultiplePages(0)` (reached by a `Remap` of 0 bytes) on a 2-page device takes a one-page block
-off the free lists (splitting the device), records a tracker with 0 pages and returns NO page — nothing is live,
-yet the block can never be freed: the device has leaked a page for good. -/
-theorem buddy_round_trip_full_refuted : ¬ buddy_round_trip_full := by
+/-- **It holds for the repaired code**: `allocateMultiplePages(0)` (a `Remap` of 0 bytes) returns at once, so a
+request for no page neither takes a block nor records a tracker. -/
+theorem buddy_round_trip_full_holds : buddy_round_trip_full :=
+  fun F base ops hl hlive => (buddy_round_trip F base ops hl hlive).1
+
+/-- the same statement about the code BEFORE the repair (`runLiveNoGuard`: `allocateMultiplePages` without its
+zero-page guard) -/
+def buddy_round_trip_full_before_fix : Prop :=
+  ∀ (F base : Nat) (ops : List Op),
+    (runLiveNoGuard (init base (4096 * 2 ^ F)) [] ops).legal = true →
+    (runLiveNoGuard (init base (4096 * 2 ^ F)) [] ops).live = [] →
+    (runLiveNoGuard (init base (4096 * 2 ^ F)) [] ops).st.free = [base] :: List.replicate F []
+
+/-- Witness (old code): `allocateMultiplePages(0)` on a 2-page device takes a one-page block off the free lists
+(splitting the device), records a tracker with 0 pages and returns NO page — nothing is live, yet the block can
+never be freed: the device has leaked a page for good. -/
+theorem buddy_round_trip_full_before_fix_refuted : ¬ buddy_round_trip_full_before_fix := by
   intro h
   have := h 1 0x5000 [.am 0]
   revert this
   decide +kernel
 
-/-- the leaked state: nothing live, one page missing from the free lists, the split bit of the root set -/
-example : (runLive (init 0x5000 (4096 * 2 ^ 1)) [] [.am 0]).live = [] ∧
-    (runLive (init 0x5000 (4096 * 2 ^ 1)) [] [.am 0]).st.free = [[], [0x6000]] ∧
-    (runLive (init 0x5000 (4096 * 2 ^ 1)) [] [.am 0]).st.split = [0] := by
+/-- the leaked state of the old code: nothing live, one page missing from the free lists, the split bit of the
+root set; the repaired code leaves the fresh device -/
+example : (runLiveNoGuard (init 0x5000 (4096 * 2 ^ 1)) [] [.am 0]).live = [] ∧
+    (runLiveNoGuard (init 0x5000 (4096 * 2 ^ 1)) [] [.am 0]).st.free = [[], [0x6000]] ∧
+    (runLiveNoGuard (init 0x5000 (4096 * 2 ^ 1)) [] [.am 0]).st.split = [0] ∧
+    (runLive (init 0x5000 (4096 * 2 ^ 1)) [] [.am 0]).st.free = [[0x5000], []] ∧
+    (runLive (init 0x5000 (4096 * 2 ^ 1)) [] [.am 0]).st.split = [] ∧
+    (runLive (init 0x5000 (4096 * 2 ^ 1)) [] [.am 0]).st.trk = [] := by
   decide +kernel
 
-/-- **The live pages are exactly the pages of the tracker map, each once.** After any history (requests for at
-least one page): a page is live iff it has a `blockTracking` entry, and no page is live twice — a page that is
+/-- the driver-level scenario of the recorded finding on the repaired code: a page, a `Remap` of 0 bytes, the page
+given back — the whole 2-page device is one free block again -/
+example : (runLive (init 0x2000 (4096 * 2 ^ 1)) [] [.pop 1, .am 0, .add [0x2000]]).legal = true ∧
+    (runLive (init 0x2000 (4096 * 2 ^ 1)) [] [.pop 1, .am 0, .add [0x2000]]).live = [] ∧
+    (runLive (init 0x2000 (4096 * 2 ^ 1)) [] [.pop 1, .am 0, .add [0x2000]]).st.free = [[0x2000], []] ∧
+    (runLiveNoGuard (init 0x2000 (4096 * 2 ^ 1)) [] [.pop 1, .am 0, .add [0x2000]]).st.free = [[], [0x2000]] := by
+  decide +kernel
+
+/-- **The live pages are exactly the pages of the tracker map, each once.** After any history: a page is live iff it has a `blockTracking` entry, and no page is live twice — a page that is
 handed out and not yet given back is never handed out again, frees included. -/
-theorem buddy_live_exact (F base : Nat) (ops : List Op) (hpos : ∀ op ∈ ops, AmPos op) :
+theorem buddy_live_exact (F base : Nat) (ops : List Op) :
     (∀ p, Tracked (runLive (init base (4096 * 2 ^ F)) [] ops).st p ↔ p ∈ (runLive (init base (4096 * 2 ^ F)) [] ops).live) ∧
     (runLive (init base (4096 * 2 ^ F)) [] ops).live.Nodup := by
-  obtain ⟨-, T, N⟩ := core_runLive ops _ [] hpos (core_init F base) (by simp [Tracked, init]) List.nodup_nil
+  obtain ⟨-, T, N⟩ := core_runLive ops _ [] (core_init F base) (by simp [Tracked, init]) List.nodup_nil
   exact ⟨T, N⟩
 
 example : (runLive (init 0x5000 (4096 * 2 ^ 3)) [] [.pop 1, .am 2, .add [0x5000], .pop 2]).live =
@@ -136,14 +160,13 @@ theorem buddy_addSingle_total {F : Nat} {s : State} (p : Nat) (h : FInv F s)
     (hnb : s.nbits = 64 * (2 ^ F / 64 + 1)) : ∃ s', addSingle s p = .ok s' :=
   (addSingle_total (p := p) h hnb).imp fun _ hh => hh.1
 
-/-- **Whatever the history, returning everything restores the fresh device.** After ANY history of requests for at
-least one page, giving back all live pages in one `Free` succeeds and leaves one whole-device free block, no bit
+/-- **Whatever the history, returning everything restores the fresh device.** After ANY history, giving back all live pages in one `Free` succeeds and leaves one whole-device free block, no bit
 set, an empty tracker map. -/
-theorem buddy_give_back_all (F base : Nat) (ops : List Op) (hpos : ∀ op ∈ ops, AmPos op) :
+theorem buddy_give_back_all (F base : Nat) (ops : List Op) :
     ∃ s', step (runLive (init base (4096 * 2 ^ F)) [] ops).st (.add (runLive (init base (4096 * 2 ^ F)) [] ops).live)
         = .ok ([], s') ∧
       s'.free = [base] :: List.replicate F [] ∧ s'.split = [] ∧ s'.merge = [] ∧ s'.track = [] := by
-  obtain ⟨c, T, -⟩ := core_runLive ops _ [] hpos (core_init F base) (by simp [Tracked, init]) List.nodup_nil
+  obtain ⟨c, T, -⟩ := core_runLive ops _ [] (core_init F base) (by simp [Tracked, init]) List.nodup_nil
   obtain ⟨s', e, r⟩ := core_give_back c T
   refine ⟨s', ?_, r⟩
   simp only [step, e]
@@ -156,19 +179,18 @@ example : (runLive (init 0x5000 (4096 * 2 ^ 3)) [] [.pop 1, .am 2, .add [0x5000]
 
 /-! ## 3. conservation -/
 
-/-- **Conservation: free blocks and allocated blocks partition the device at every step.** After any history of
-requests for at least one page, every page `base + 4096*j` (`j < 2^F`) of the device lies EITHER inside a block of a
+/-- **Conservation: free blocks and allocated blocks partition the device at every step.** After any history, every page `base + 4096*j` (`j < 2^F`) of the device lies EITHER inside a block of a
 free list OR inside the block of a live page — the block `freeBlock` itself would release for that page's tracker
 (`levelOfBlock` of the tracker's address), whose tracker still counts pages — and never both. No page of the device
 is lost, none is accounted twice. -/
-theorem buddy_conservation (F base : Nat) (ops : List Op) (hpos : ∀ op ∈ ops, AmPos op) (j : Nat) (hj : j < 2 ^ F) :
+theorem buddy_conservation (F base : Nat) (ops : List Op) (j : Nat) (hj : j < 2 ^ F) :
     (InFreeBlock (runLive (init base (4096 * 2 ^ F)) [] ops).st (base + 4096 * j) ∨
       Accounted (runLive (init base (4096 * 2 ^ F)) [] ops).st (runLive (init base (4096 * 2 ^ F)) [] ops).live
         (base + 4096 * j)) ∧
     ¬ (InFreeBlock (runLive (init base (4096 * 2 ^ F)) [] ops).st (base + 4096 * j) ∧
       Accounted (runLive (init base (4096 * 2 ^ F)) [] ops).st (runLive (init base (4096 * 2 ^ F)) [] ops).live
         (base + 4096 * j)) := by
-  obtain ⟨c, T, -⟩ := core_runLive ops _ [] hpos (core_init F base) (by simp [Tracked, init]) List.nodup_nil
+  obtain ⟨c, T, -⟩ := core_runLive ops _ [] (core_init F base) (by simp [Tracked, init]) List.nodup_nil
   exact core_conservation c T j hj
 
 /-- non-vacuity: 8-page device, page 0x5000 and the 2-page block 0x7000 allocated, 0x7000 given back (the block
